@@ -525,6 +525,8 @@ def symmetric_helper(F, g):
             return x["k"] == "UnaryOperator" and x.get("op") == "&" and strip(kids(x)[0]).get("declId") == d
         if e["k"] == "BinaryOperator" and e.get("op") == "==":
             l, r = strip(kids(e)[0]), strip(kids(e)[1])
+            if cv(l) == 0 and cv(r) != 0:
+                l, r = r, l                    # 0 == memcmp(...)
             if l["k"] == "CallExpr" and l.get("callee") in ("memcmp", "std::memcmp") and cv(r) == 0:
                 a = call_args(l)
                 ok = (is_addr(a[0], pa) and is_addr(a[1], pb)) or (is_addr(a[0], pb) and is_addr(a[1], pa))
